@@ -2,8 +2,8 @@
    operation lists the implementation ran and reports the indices that differ.
    Single-window cases are evaluated twice: with the hand model (Data/Qos.v) and
    with the functions translated from qos.go (Data/gen/QosGen.v).  Window-list
-   cases (the loop of PopQos) use the hand model's [reserve] with the regenerated
-   parameter [popqos_rolls_back].  Definitions only. *)
+   cases (the loop of PopQos) use the hand model's [reserve_gen] with the regenerated
+   parameters [popqos_rolls_back] and [popqos_skips_inactive].  Definitions only. *)
 From Coq Require Import List NArith Bool.
 Import ListNotations.
 From GMQ Require Import Data.Qos Data.gen.QosGen.
@@ -78,7 +78,7 @@ Definition r_out_eqb (a b : r_out) : bool := optb_eqb (fst a) (fst b) && list_eq
 
 Definition r_step (ws : list qos) (o : r_op) : list qos * option bool :=
   match o with
-  | RPop n => let '(b, ws') := reserve popqos_rolls_back ws n in (ws', Some b)
+  | RPop n => let '(b, ws') := reserve_gen popqos_rolls_back popqos_skips_inactive ws n in (ws', Some b)
   | RSettle n => (release_all ws n, None)
   end.
 
